@@ -1,7 +1,21 @@
+"""C12 - weighted union / intersection follow the documented formula."""
 from props import _generic as g
 
 
 def run(ctx):
     fns = g.run_pyvc(ctx, "C12")
+    from pyvc import attached
+    ctx.obligations.extend(attached.check("C12"))
     ctx.standin("weighted_rt", families=tuple("II,IF,LL,OI".split(",")))
-    return "exploration", "bounded stand-in weighted_rt (no obligation of the deductive engines serves C12 yet)"
+    return "proof", (
+        "Engine P: weightedUnion and weightedIntersection of _base.py are proved from their real bodies (with the real "
+        "MERGE and _AbstractNativeDataType.apply_weight inlined, _prepMergeIterators inlined) against the documented "
+        "table: None short-circuits with the documented weights; otherwise a NEW strictly sorted container whose key set is "
+        "exactly the union / intersection, of mapping kind iff an operand has values, weight 1 (intersection of two sets: "
+        "w1 + w2), and for every result position r: value[r] == v1*w1 + v2*w2 for a common key (a set member counts one()), "
+        "v*w for a key of one side only - values and weights are terms of the family's value type with uninterpreted *, + "
+        "(+ commutative), so the clause is the formula itself, for ints of any width and floats alike; the operand swap is "
+        "covered (invariant over the original operands and weights). %d targets incl. the cursor and two prefix-set lemmas. "
+        "attached:* obligations tie MERGE / MERGE_WEIGHT / MERGE_DEFAULT / multiplication_identity == 1 to "
+        "_module_builder.py and _datatypes.py as read from the source. The C implementation and object keys incl. None "
+        "are the bounded stand-in weighted_rt." % len(fns))
